@@ -47,7 +47,7 @@ TOL_EXP = 1e-7     # clean tree: worst deviation observed over seeds 0..9 is < 5
 TOL_FID = 1e-9
 PRE: dict[str, list] = {}
 WORST = {"exp": 0.0, "infid": 0.0, "norm": 0.0}
-TOL_GATE = 1e-10   # clean tree: worst deviation of the three gate oracles over seeds 0..9 is < 2e-14 (see evidence `worst_gate_*`)
+TOL_GATE = 1e-10   # clean tree: worst deviation of the three gate oracles over seeds 0..9 is < 1e-13 (largest seen 9.1e-14; see evidence `worst_gate_*`)
 WORST_GATE = {"apply": 0.0, "step": 0.0, "cancel": 0.0, "excursion_min": None, "applications": 0, "cancel_groups": 0}
 
 
@@ -432,7 +432,7 @@ def spec_report():
     return [{"name": "oracle deviations on this run (clean tree: exp < 5e-13, infidelity < 5e-13)", "ok": True,
              "worst_expectation_dev": WORST["exp"], "worst_infidelity": WORST["infid"], "worst_norm_dev": WORST["norm"],
              "tolerances": {"expectation": TOL_EXP, "fidelity": TOL_FID}},
-            {"name": "single gate applications (clean tree: all three deviations < 2e-14): |new - G.old| per apply_two_qubit_gate call, "
+            {"name": "single gate applications (clean tree, seeds 0..9: all three deviations < 1e-13): |new - G.old| per apply_two_qubit_gate call, "
                      "across the gate's own pair step, and across every cancelling group of the sweep", "ok": True,
              "worst_gate_apply_dev": WORST_GATE["apply"], "worst_gate_step_dev": WORST_GATE["step"],
              "worst_gate_cancel_dev": WORST_GATE["cancel"], "smallest_excursion_inside_a_cancelling_group": WORST_GATE["excursion_min"],
